@@ -10,6 +10,7 @@
 //           gap   : index of the program step before which the signal is raised (0 = before the first step,
 //                   n = after the last one); program steps are the individual stores, counted as they happen
 //           sig   : I (SIGINT) | T (SIGTERM)
+// argv[1]: number of program steps of one SetHandler call (default 2), only used to validate gap indices.
 // stdout: one line per case: a token per program step "<point>[state]", per work step "W(q=<0|1>)[state]",
 //         per delivered signal "!<sig>(brk=<n>,cb=<h>:<d>|-,rearm=<sigs>)[state]" or "!<sig>(brk=<n>,exit=<code>)" or
 //         "!<sig>(killed=<sig>)"; last token "end" if the program ran to completion.
@@ -234,7 +235,10 @@ static void run_child(const std::string &mode, const std::vector<std::string> &p
   _exit(0);
 }
 
+static int g_steps_per_reg = 2;   // number of stores in SetHandler (argv[1]; 3 for the repaired layout)
+
 int main(int argc, char **argv) {
+  if (argc > 1) g_steps_per_reg = atoi(argv[1]);
   if (!mp_verif_point) { /* hook variable exists (link succeeded); null by default as required */ }
   else { fprintf(stderr, "mp_verif_point is not null by default\n"); return 3; }
   mp::BasicSolver solver;
@@ -280,7 +284,7 @@ int main(int argc, char **argv) {
           if (sscanf(m.c_str(), "R:%d:%d%n", &h, &d, &used) != 2 || (size_t)used != m.size() ||
               h < 0 || h > 7 || d < 0 || d > 7) bad = true;
           if (!alive) bad = true;
-          nsteps += 2;
+          nsteps += g_steps_per_reg;
         }
         else bad = true;
       }
